@@ -136,7 +136,6 @@ func ruleNoPositionInsideOpenTxn(w *core.World, r *core.Report, c *senderCtx) {
 	}
 }
 
-
 // ---------------------------------------------------------------- R07.9 the database a checkpoint is accounted to is the database of this batch
 
 // ruleCheckpointDbFromBatch: the run id (and version) of a checkpoint record is written once per database; a
@@ -402,7 +401,7 @@ func ruleEntryErrorEndsWorker(w *core.World, r *core.Report) {
 			continue
 		}
 		cons := shortName(name) + "/entry-error-ends-worker"
-		// the per-entry loop: the loop around the receive from the entry pipe
+		// the per-entry loop: the loop around the receive from the entry pipe (or around the call that is handed the pipe)
 		var head *ssa.BasicBlock
 		for _, in := range core.OwnInstrs(g) {
 			switch x := in.(type) {
@@ -415,6 +414,13 @@ func ruleEntryErrorEndsWorker(w *core.World, r *core.Report) {
 			case *ssa.UnOp:
 				if x.Op == token.ARROW && isEntryChan(x.X.Type()) {
 					head = core.LoopHeadOf(x.Block())
+				}
+			case *ssa.Call:
+				// the receive given a name: a call that is handed the pipe
+				for _, a := range x.Call.Args {
+					if isEntryChan(a.Type()) && head == nil {
+						head = core.LoopHeadOf(x.Block())
+					}
 				}
 			}
 		}
